@@ -133,6 +133,12 @@ TWINS = [
     ('accessor-t-both-arms', 'C09', 'pose3d.py', '            return self.A[:3, 3]\n        else:\n            return np.array([x[:3, 3] for x in self.A])', '            return self.A[:3, 2]\n        else:\n            return np.array([x[:3, 2] for x in self.A])', 'R8', 'SE3.t'),
     ('rpy-list-arm-drops-unit', 'C15', 'pose3d.py', '            return cls([base.rpy2tr(a, order=order, unit=unit) for a in angles], check=False)', '            return cls([base.rpy2tr(a, order=order) for a in angles], check=False)', 'R10c', 'SE3.RPY'),
     ('eul-list-arm-drops-unit', 'C15', 'pose3d.py', '            return cls([base.eul2r(a, unit=unit) for a in angles], check=False)', '            return cls([base.eul2r(a) for a in angles], check=False)', 'R10c', 'SO3.Eul'),
+    ('se3-inv-view-overwrite', 'C02', 'pose3d.py', '            return SE3([base.trinv(x) for x in self.A], check=False)', '            Ti = np.array(self.A)\n            R = Ti[:, :3, :3]\n            t = Ti[:, :3, 3:]\n            Rt = R.transpose(0, 2, 1)\n            Ti[:, :3, :3] = Rt\n            Ti[:, :3, 3:] = -Rt @ t\n            return SE3(list(Ti), check=False)', 'R24', 'SE3.inv'),
+    ('mul-zip-without-length-test', 'C09', 'super_pose.py', "right.shape[0] == left.N and len(left) == right.shape[1]:\n                # SE(n) x matrix", "right.shape[0] == left.N:\n                # SE(n) x matrix", 'R8z', 'SMPose.__mul__'),
+    ('simplify-kernel-mixed-kinds', 'C16', 'base/symbolic.py', '    if _symbolics:\n        return sympy.simplify(x)\n    else:\n        return x', '    if _symbolics and not isinstance(x, float):\n        return sympy.simplify(x)\n    else:\n        return x', 'R11v', 'SMPose.simplify'),
+    ('slerp-returns-raw-endpoint', 'C15', 'base/quaternions.py', '    q0 = base.getvector(q0, 4)\n    q1 = base.getvector(q1, 4)\n\n    if s == 0:\n        return q0\n    elif s == 1:\n        return q1\n', '    if s == 0:\n        return q0\n    elif s == 1:\n        return q1\n    q0 = base.getvector(q0, 4)\n    q1 = base.getvector(q1, 4)\n', 'R10a', 'slerp'),
+    ('se3-so3-transports-unchecked-param', 'C07', 'pose3d.py', "        elif base.isrot(R, check=check):\n            pass\n        else:\n            raise ValueError('expecting SO3 or rotation matrix')\n        return cls(base.r2t(R))", "        elif check and not base.isrot(R):\n            raise ValueError('expecting SO3 or rotation matrix')\n        return cls(base.r2t(R), check=False)", 'R15c', 'SE3.SO3'),
+    ('udq-ctor-negates-real-only', 'C06', 'DualQuaternion.py', '        elif real is not None and dual is not None:\n            self.real = real  # quaternion, real part', '        elif real is not None and dual is not None:\n            if real.s < 0:\n                real = -real\n            self.real = real  # quaternion, real part', 'R22', 'UnitDualQuaternion.__init__'),
     ('cross-entry', 'C13', 'base/vectors.py', '        u[2] * v[0] - u[0] * v[2],', '        u[0] * v[2] - u[2] * v[0],', 'R16', 'cross'),
     ('tr2jac-notranspose', 'C13', 'base/transforms3d.py', '        return np.block([[R.T, Z], [Z, R.T]])', '        return np.block([[R, Z], [Z, R]])', 'R16', 'tr2jac'),
     # ---- C14
@@ -164,7 +170,7 @@ TWINS = [
     # ---- rules added after seeded round b
     ('pow-transpose', 'C01', 'super_pose.py', 'return self.__class__([np.linalg.matrix_power(x, n) for x in self.data], check=False)', 'return self.__class__([np.linalg.matrix_power(x.T, -n) if n < 0 else np.linalg.matrix_power(x, n) for x in self.data], check=False)', 'R15c', '__pow__'),
     ('se3-inv-transpose', 'C01', 'pose3d.py', '            return SE3(base.trinv(self.A), check=False)', '            return SE3(self.A.T, check=False)', 'R15c', 'SE3.inv'),
-    ('trlog-diag-c02', 'C02', 'base/transforms3d.py', '            skw = (R - R.T) / 2 / math.sin(theta)', '            skw = base.skew(np.sqrt(np.abs(np.diag(R) + 1) / 2)) * math.sin(theta) / math.sin(theta)', 'R17', 'trlog'),
+    ('trlog-diag-c02', 'C02', 'base/transforms3d.py', '            skw = (R - R.T) / 2\n            st = base.norm(base.vex(skw))', '            skw = base.skew(np.sqrt(np.abs(np.diag(R) + 1) / 2))\n            st = math.sqrt(1 - ((np.trace(R) - 1) / 2) ** 2)', 'R17', 'trlog'),
     ('udq-dual-negated', 'C04', 'DualQuaternion.py', '        elif real is not None and dual is not None:\n            self.real = real  # quaternion, real part\n            self.dual = dual  # quaternion, dual part\n        elif dual is None and isinstance(real, SE3):', '        elif real is not None and dual is not None:\n            if dual.s < 0:\n                dual = -dual\n            self.real = real  # quaternion, real part\n            self.dual = dual  # quaternion, dual part\n        elif dual is None and isinstance(real, SE3):', 'R13', 'UnitDualQuaternion.__init__'),
     ('uq-angvec-vector-part', 'C05', 'quaternion.py', '        return base.tr2angvec(self.R, unit=unit)', '        return (2 * math.acos(abs(self.s)) * (180 / math.pi if unit == "deg" else 1), base.unitvec(self.v))', 'R16s', 'angvec'),
     ('uq-rpy-from-vec', 'C05', 'quaternion.py', '            return base.tr2rpy(self.R, unit=unit, order=order)', '            return base.tr2rpy(base.rotx(self.s), unit=unit, order=order)', 'R16s', 'UnitQuaternion.rpy'),
@@ -195,8 +201,11 @@ TWINS = [
     ('se3-inv-memo', 'C06', 'pose3d.py', '        if len(self) == 1:\n            return SE3(base.trinv(self.A), check=False)', '        if len(self) == 1:\n            if getattr(self, "_inv", None) is None:\n                self._inv = SE3(base.trinv(self.A), check=False)\n            return self._inv', 'R9', 'SE3.inv'),
     ('se3-Ad-memo', 'C20', 'pose3d.py', '        return base.adjoint(self.A)', '        if getattr(self, "_Ad", None) is None:\n            self._Ad = base.adjoint(self.A)\n        return self._Ad', 'R9', 'SE3.Ad'),
     # ---- C03 structural clauses
-    ('trlog-general-transposed', 'C03', 'base/transforms3d.py', '            skw = (R - R.T) / 2 / math.sin(theta)', '            skw = (R.T - R) / 2 / math.sin(theta)', 'R19', 'trlog'),
-    ('trlog-acos-arg', 'C03', 'base/transforms3d.py', '            theta = math.acos((np.trace(R) - 1) / 2)', '            theta = math.acos((np.trace(R) - 2) / 2)', 'R19', 'trlog'),
+    ('trlog-general-transposed', 'C03', 'base/transforms3d.py', '            skw = (R - R.T) / 2\n            st', '            skw = (R.T - R) / 2\n            st', 'R19', 'trlog'),
+    ('trlog-acos-zero-divisor', 'C03', 'base/transforms3d.py', '            skw = (R - R.T) / 2\n            st = base.norm(base.vex(skw))\n            theta = math.atan2(st, (np.trace(R) - 1) / 2)\n            if st > 0:\n                skw = skw / st\n', '            theta = math.acos((np.trace(R) - 1) / 2)\n            skw = (R - R.T) / 2 / math.sin(theta)\n', 'R19', 'trlog'),
+    ('trlog-unguarded-norm-division', 'C03', 'base/transforms3d.py', '            if st > 0:\n                skw = skw / st\n', '            skw = skw / st\n', 'R19', 'trlog'),
+    ('trlog-atan2-swapped', 'C03', 'base/transforms3d.py', 'theta = math.atan2(st, (np.trace(R) - 1) / 2)', 'theta = math.atan2((np.trace(R) - 1) / 2, st)', 'R19', 'trlog'),
+    ('trlog-acos-arg', 'C03', 'base/transforms3d.py', '            theta = math.atan2(st, (np.trace(R) - 1) / 2)', '            theta = math.atan2(st, (np.trace(R) - 2) / 2)', 'R19', 'trlog'),
     ('trlog-twist-order', 'C03', 'base/transforms3d.py', '                    return np.r_[v, w]', '                    return np.r_[w, v]', 'R21', 'trlog'),
     ('trlog-ginv-sign', 'C03', 'base/transforms3d.py', 'Ginv = np.eye(3) - S / 2 +', 'Ginv = np.eye(3) + S / 2 +', 'R21', 'trlog'),
     ('se3exp-matrix-rows', 'C03', 'pose3d.py', '        elif base.ismatrix(S, (4, 4)):\n            return cls(base.trexp(S, check=check), check=False)\n', '', 'R21', 'SE3.Exp'),
